@@ -7,7 +7,9 @@ TileCreator.create_tiles -> _create_single_tile / _create_meta_tile with a real 
 TileLocker / FileLock / LockFile (real flock on real lock files) and a synthetic upstream source.  Every access to the
 shared world is gated by a deterministic scheduler, so exactly one requester performs exactly one access at a time in
 the order a schedule (list of requester ids) dictates:
-    cache read    os.path.exists as called by mapproxy.cache.file (FileCache.load_tile / is_cached)
+    cache read    os.path.exists as called by mapproxy.cache.file (FileCache.load_tile / is_cached) and os.lstat
+                  (load_tile_metadata of TileManager.is_cached when an expire timestamp is set; merged with the exists
+                  call of the same is_cached into one look)
     lock attempt  FileLock._try_lock (the real LockFile constructor runs inside; time.sleep between attempts is skipped)
     upstream      source.get_map
     cache write   write_atomic as called by mapproxy.cache.file (FileCache._store)
@@ -51,8 +53,10 @@ LEVEL_TEXT = ('Theorems over the Gallina transition system of _load_tile_coords 
               'accesses and replaying the observed trace through the model in Coq.')
 LEVEL_NOTE = ('Trusted: Coq kernel, the hand-written model Creator.v, the scheduler harness.  Imported, not proved here: the '
               'lock of one lock file is exclusive (C07).  Modelled, not verified: the file system (exists / atomic rename), '
-              'PIL encode/decode/crop (content = one colour per tile), thread safety of PIL.  Outside the statement: expiry '
-              '(no refresh_before / remove during the run), uncacheable or blank upstream answers, upstream errors, '
+              'PIL encode/decode/crop (content = one colour per tile), thread safety of PIL.  Expiry is inside the statement '
+              '(expire timestamp before the start of the run, expired files at the start; is_cached = exists + mtime look); '
+              'outside: tiles removed during the run, an expire timestamp that moves past files written during the run, '
+              'uncacheable or blank upstream answers, upstream errors, '
               'minimize_meta_requests, bulk_meta_tiles, concurrent_tile_creators > 1 inside one request (each pool worker '
               'behaves like one more requester), rescale_tiles, dimensions, sqlite/mbtiles back ends, lock timeouts.')
 DESIGN_REF = 'DESIGN.md section 5, C08'
@@ -63,7 +67,9 @@ TRUSTED = ['model Creator.v hand-written from mapproxy/cache/tile.py, cache/file
            'differential run of the real classes under an access-level scheduler vs Creator.step',
            'exclusivity of one lock file is the theorem of C07 (abstract lock table in this model)']
 ASSUMPTIONS = ['a lock file is held by at most one requester (C07)',
-               'tiles are not removed and do not expire while the requests run',
+               'tiles are not removed while the requests run; a tile written during the run is not expired (the expire '
+               'timestamp lies before the start of the run)',
+               'file sources (tiles loaded from the cache) are read when the response is built, after the request finished',
                'the upstream answers every query with a cacheable image whose tiles depend only on the tile coordinate',
                'requests contain valid, distinct tile coordinates of the grid',
                'each request creates its meta tiles one after the other (concurrent_tile_creators = 1)']
@@ -160,6 +166,21 @@ class World(object):
             self.tm._expire_timestamp = self.expire_ts
         self.meta = self.tm.meta_grid is not None
         self.flip = bool(self.grid.flipped_y_axis)
+        # mark the calls FileCache.is_cached makes (its os.path.exists and the os.lstat of the metadata that follows
+        # in TileManager.is_cached are one look at the file)
+        real_is_cached = self.cache.is_cached
+        world = self
+
+        def is_cached(tile, dimensions=None):
+            s = world.sched
+            if s is not None and s.tid() is not None:
+                s.tls.in_is_cached = True
+                try:
+                    return real_is_cached(tile, dimensions=dimensions)
+                finally:
+                    s.tls.in_is_cached = False
+            return real_is_cached(tile, dimensions=dimensions)
+        self.cache.is_cached = is_cached
         self.stale = []
         self.loc = {}
         for z, (gw, gh) in enumerate(self.sizes):
@@ -347,7 +368,8 @@ class Sched(object):
             self.weird.append('cache read of unexpected path %r' % (path,))
             c = (-1, -1, -1)
         entry['res'] = ('read', c, bool(r))
-        self.last_exists[entry['pid']] = (path, entry, bool(r))
+        if getattr(self.tls, 'in_is_cached', False):
+            self.last_exists[entry['pid']] = (path, entry, bool(r))
         self.note_under_lock(entry, [c])
         return r
 
@@ -831,8 +853,6 @@ def oracle(world, s, reqs, initial, hang, final, extra, left):
                 if v is None:
                     out.append((SIG_RACE if race_window(s, tid, c) else 'response-missing-tile',
                                 'requester %d received no image for tile %r although the upstream delivers one' % (tid, c)))
-                elif world.expire and c in world.stale and v == enc_stale(c):
-                    pass        # the expired image the request loaded at the start (see grid_responses_answered)
                 elif v != enc(c):
                     out.append(('response-wrong-tile', 'requester %d received image %r for tile %r (expected %r)' % (tid, v, c, enc(c))))
     # one upstream call per meta tile
